@@ -45,49 +45,3 @@ theorem prefix_error (ops : CryptoOps P) (decP : Bytes → Option P) (p : Prefix
   | none => rw [hm] at h; simp only [Except.error.injEq] at h; exact Or.inl ⟨rfl, h.symm⟩
   | some R => rw [hm] at h; exact Or.inr ⟨R, rfl, h⟩
 end Monero.Scan
-
-namespace Monero.Scan
-variable {P : Type}
-/-! ### the position enters through its varint only -/
-
-/-- `Hs(enc D ‖ pos)` for an already encoded position -/
-def scalarAt (ops : CryptoOps P) (D : P) (pos : Bytes) : Nat := hsOf ops (ops.enc D ++ pos)
-/-- first byte of `Keccak("view_tag" ‖ enc D ‖ pos)` for an already encoded position -/
-def tagAt (ops : CryptoOps P) (D : P) (pos : Bytes) : UInt8 := (ops.keccak (Gen.viewTagSalt ++ ops.enc D ++ pos)).headD 0
-
-/-- `check_key` written over the ENCODED position: this function never sees the number `i` -/
-def checkKeyAt (ops : CryptoOps P) (ck : Checker P) (out : TxOut) (pos : Bytes) (K : Bytes) : Option (Nat × Nat) :=
-  match asOneTimeKey ops out.target with
-  | none => none
-  | some key =>
-    match ops.dec K with
-    | none => none
-    | some R =>
-      let D := derive ops ck.v R
-      if !(match out.target with | .tagged _ tag => tag == tagAt ops D pos | .key _ => true) then none else
-      tblGet ck.table (ops.enc (ops.sub key (pubOf ops (scalarAt ops D pos))))
-
-theorem checkKey_eq_at (ops : CryptoOps P) (ck : Checker P) (out : TxOut) (i : Nat) (K : Bytes) :
-    checkKey ops ck out i K = (checkKeyAt ops ck out (encVarint i) K).map fun idx => (i, idx, K) := by
-  unfold checkKey checkKeyAt
-  cases asOneTimeKey ops out.target with
-  | none => rfl
-  | some key =>
-    simp only
-    cases ops.dec K with
-    | none => rfl
-    | some R =>
-      simp only
-      have ht : checkViewTag ops out.target (derive ops ck.v R) i =
-          (match out.target with | .tagged _ tag => tag == tagAt ops (derive ops ck.v R) (encVarint i) | .key _ => true) := by
-        unfold checkViewTag; cases out.target <;> rfl
-      rw [ht]
-      generalize (match out.target with | .tagged _ tag => tag == tagAt ops (derive ops ck.v R) (encVarint i) | .key _ => true) = bb
-      cases bb with
-      | false => rfl
-      | true =>
-        simp only [Bool.not_true, Bool.false_eq_true, if_false]
-        unfold Checker.checkWithKeyGenerator tblGet
-        show _ = Option.map _ (List.lookup (ops.enc (ops.sub key (pubOf ops (rvnScalar ops (derive ops ck.v R) i)))) ck.table)
-        cases List.lookup (ops.enc (ops.sub key (pubOf ops (rvnScalar ops (derive ops ck.v R) i)))) ck.table <;> rfl
-end Monero.Scan
